@@ -38,6 +38,32 @@ Theorem C04_stop_rule :
     nth 0 (r_evolution _ _ r) nil = map (report A cost with_cost (a_dir ar)) pinit.
 Proof. exact stop_rule. Qed.
 
+(* the mean fitness of a generation is computed by the REGENERATED helpers.average_fitness: numpy's average (the oracle `mean`)
+   of exactly the agents' fitness values - so the rates of the theorem above, instantiated with it, are
+   |1 - mean (fitness of every agent of generation k)| (no agent is skipped, NaN fitness included) *)
+Theorem C04_average_fitness : forall F A (fit : A -> F) (mean : list F -> F) pop,
+  gen_average_fitness F A fit mean pop = mean (map fit pop).
+Proof. reflexivity. Qed.
+Theorem C04_rates_are_mean_fitness :
+  forall A cost with_cost F fsub fabs fltb fleb fzero fone (fit : A -> F) (mean : list F -> F) H before_init init_pop after_init step
+         ar (i : inst A F H) c h0 p0 pinit,
+  let avg := gen_average_fitness F A fit mean in
+  i_config _ _ _ i = Some c -> valid_args ar -> 1 <= max_cycles c ->
+  entry_state A F H before_init init_pop after_init i = (h0, p0, pinit) ->
+  populated A F fsub fabs fltb fleb fzero fone avg H step c h0 p0 pinit ->
+  exists K r i',
+    run A cost with_cost F fsub fabs fltb fleb fzero fone avg H before_init init_pop after_init step
+        (max_cycles c) gen_optimize_schema ar i = Done A F H r i' K /\
+    length (r_rates _ _ r) = K /\
+    (forall k, 1 <= k <= K -> nth (k - 1) (r_rates _ _ r) fzero = fabs (fsub fone (mean (map fit (pop_at A H step h0 p0 k))))).
+Proof.
+  intros A cost with_cost F fsub fabs fltb fleb fzero fone fit mean H before_init init_pop after_init step ar i c h0 p0 pinit avg Hc Ha Hm He Hp.
+  destruct (stop_rule A cost with_cost F fsub fabs fltb fleb fzero fone avg H before_init init_pop after_init step ar i c h0 p0 pinit Hc Ha Hm He Hp)
+    as (K & r & i' & Hr & _ & _ & _ & _ & Hrl & Hrates & _).
+  exists K, r, i'. repeat split; auto.
+Qed.
+
 Print Assumptions C04_schema.
+Print Assumptions C04_rates_are_mean_fitness.
 Print Assumptions C04_error_check.
 Print Assumptions C04_stop_rule.
